@@ -24,7 +24,8 @@ THEOREMS = ["C12_rows_in_order", "C12_padding_correct", "C12_dense_target", "C12
             "C12_dedup_keys", "C12_dedup_keys_order", "C12_dedup_mean", "C12_dedup_nodup_id",
             "C12_dedup_mask_positions",
             "C12_real_enc_is_encode", "C12_dedup_distinct_positions", "C12_first_pos_at_reading",
-            "C12_self_play_batches_encodable"]
+            "C12_self_play_batches_encodable",
+            "C12_source_dedup_eq", "C12_source_dedup_never_crashes", "C12_source_encode_games_eq", "C12_source_dedup_keys", "C12_source_dedup_mean", "C12_source_dedup_nodup_id", "C12_source_dedup_mask_positions", "C12_source_rows_in_order"]
 MODEL_TARGETS = ["model/Tak.vo", "model/SelfPlay.vo", "model/Batch.vo", "model/Harness.vo", "model/Lit.vo"]
 TRUSTED_BASE = [
     "torch tensors as lists: torch.cat / list comprehension order, boolean-mask indexing, in-place += and /= on rows "
@@ -615,3 +616,21 @@ def replay(run, rp):
     return {"violates": bool(failing or shard_fail or clauses), "oracle_violations": clauses,
             "model_disagrees": bool(failing), "impl_output": out["impl_output"],
             "model_view": cs.model_view(term) if failing else None}
+
+
+# ---- translator tie (T): the C12_source_* theorems quantify over functions REGENERATED FROM THE SOURCE; t12's
+# correspondence validates the semantics library and the translation scheme on every run.
+from . import t12 as _t12  # noqa: E402
+
+MODEL_TARGETS = sorted(set(list(MODEL_TARGETS) + list(_t12.MODEL_TARGETS)))
+TRUSTED_BASE = list(TRUSTED_BASE) + list(getattr(_t12, "TRUSTED_BASE", []))
+_c12_correspondence = correspondence
+
+
+def pregen(run):
+    return _t12.pregen(run)
+
+
+def correspondence(run):
+    _c12_correspondence(run)
+    _t12.correspondence(run)
